@@ -504,3 +504,76 @@ def _drain_start(sc, log):
         elif r[0] == "job" and r[1] == "start" and known <= delivered:
             return n
     return None
+
+
+# ------------------------------------------------------------------------------------------------
+# API usages outside the model's input language, checked directly against the property statement
+def usage_probes():
+    """Returns [(fingerprint, message, details)].
+    (1) one history (the same list object) given to two sources, as when it is fed to two strategies: each source
+        delivers every event once, and the caller's list is left alone;
+    (2) two events of one instant, one handler that finishes at once and one that stays suspended for 45 s of (virtual)
+        time while max_concurrent >= 2: nothing of the next instant starts before both have finished, and the clock
+        shows the event's time whenever a handler resumes."""
+    out = []
+    import basana as bs
+    from basana.core import event as core_event
+    from harness import vloop
+
+    class Ev(core_event.Event):
+        def __init__(self, when, eid):
+            super().__init__(when)
+            self.eid = eid
+
+    async def shared_list():
+        d = bs.backtesting_dispatcher(max_concurrent=3)
+        history = [Ev(T(4 * k), k) for k in range(6)]
+        a, b = core_event.FifoQueueEventSource(events=history), core_event.FifoQueueEventSource(events=history)
+        got = {"a": [], "b": []}
+
+        async def ha(ev):
+            got["a"].append(ev.eid)
+
+        async def hb(ev):
+            got["b"].append(ev.eid)
+        d.subscribe(a, ha)
+        d.subscribe(b, hb)
+        await asyncio.wait_for(d.run(stop_signals=[]), timeout=20)
+        return got, [e.eid for e in history]
+    got, left = asyncio.run(shared_list())
+    if got["a"] != list(range(6)) or got["b"] != list(range(6)) or left != list(range(6)):
+        out.append(("delivery:not-exactly-once",
+                    f"one list of 6 events given to two sources: the handlers received {got['a']} and {got['b']}, the "
+                    f"caller's list now holds {left}", {"received": got, "callers_list": left}))
+
+    async def slow_handler(loop):
+        d = bs.backtesting_dispatcher(max_concurrent=2)
+        s1 = core_event.FifoQueueEventSource(events=[Ev(T(0), 1), Ev(T(8), 3)])
+        s2 = core_event.FifoQueueEventSource(events=[Ev(T(0), 2)])
+        log = []
+
+        async def h(ev):
+            log.append(("start", ev.eid, S(d.now())))
+            if ev.eid == 2:
+                await asyncio.sleep(45)
+            log.append(("end", ev.eid, S(d.now())))
+        d.subscribe(s1, h)
+        d.subscribe(s2, h)
+        lg = logging.getLogger("basana")
+        old = lg.level
+        lg.setLevel(logging.CRITICAL + 1)
+        try:
+            await d.run(stop_signals=[])
+        finally:
+            lg.setLevel(old)
+        return log
+    log = vloop.run_virtual(slow_handler)
+    order = [(k, e) for k, e, _ in log]
+    bad_clock = [r for r in log if (r[1] in (1, 2) and r[2] != 0) or (r[1] == 3 and r[2] != 8)]
+    if ("end", 2) not in order or order.index(("end", 2)) > order.index(("start", 3)) if ("start", 3) in order else True:
+        out.append(("stages:next-instant-started-early",
+                    f"a handler of t=0 suspended for 45 s: observed {log}", {"log": [list(r) for r in log]}))
+    elif bad_clock:
+        out.append(("clock:ne-event-time", f"a handler saw a clock different from its event's time: {bad_clock} in {log}",
+                    {"log": [list(r) for r in log]}))
+    return out
